@@ -30,16 +30,6 @@ Definition agree (k : case) : bool :=
 
 (* ---- the property, judged on what the implementation returned ---- *)
 Definition max_fanin (c : circuit) : nat := map_fold (λ _ i acc, max acc (size (n_fi i))) 0 c.
-(* the recorded circuit is a plausible limit_fanin(c, 2): same interface, no gate above 2, original nodes kept,
-   and it is c itself when c already respects the bound *)
-Definition limited_ok (C : Circuit) (L : option Circuit) : bool :=
-  match L with
-  | None => (max_fanin (c_g C) <=? 2)%nat
-  | Some L' => (max_fanin (c_g L') <=? 2)%nat && bool_decide (inputs (c_g L') = inputs (c_g C))
-               && bool_decide (outputs (c_g L') = outputs (c_g C)) && bool_decide (dom (c_g C) ⊆ dom (c_g L'))
-               && bool_decide (c_name L' = c_name C)
-               && ((2 <? max_fanin (c_g C))%nat || bool_decide (c_g L' = c_g C))
-  end.
 (* replace every supergate blackbox by its supergate *)
 Definition fill_all (SC : Circuit) (m : list (string * Circuit)) : option Circuit :=
   foldl (λ st p, match st with Some C => let r := fill_blackbox C p.1 p.2 in
@@ -54,6 +44,18 @@ Definition equiv_outputs (c f : circuit) : bool :=
                 consistentb c vc && consistentb f vf && eq_on (elements (outputs c)) vc vf)
           (all_vals (elements (inputs c))).
 
+(* the recorded circuit is a plausible limit_fanin(c, 2): same interface, no gate above 2, original nodes kept, it is c itself
+   when c already respects the bound, and it COMPUTES c: same output values on every input valuation ("sub-circuits of the
+   fan-in-limited circuit" is only meaningful if that circuit is equivalent to c) *)
+Definition limited_ok (C : Circuit) (L : option Circuit) : bool :=
+  match L with
+  | None => (max_fanin (c_g C) <=? 2)%nat
+  | Some L' => (max_fanin (c_g L') <=? 2)%nat && bool_decide (inputs (c_g L') = inputs (c_g C))
+               && bool_decide (outputs (c_g L') = outputs (c_g C)) && bool_decide (dom (c_g C) ⊆ dom (c_g L'))
+               && bool_decide (c_name L' = c_name C)
+               && ((2 <? max_fanin (c_g C))%nat || bool_decide (c_g L' = c_g C))
+               && equiv_outputs (c_g C) (c_g L')
+  end.
 Definition holds (k : case) : bool :=
   match k with
   | CList C L obs =>
